@@ -12,6 +12,7 @@
 # See the License for the specific language governing permissions and
 # limitations under the License.
 
+import types
 from typing import Callable, Dict
 
 from opacus.optimizers import DPOptimizer
@@ -130,6 +131,19 @@ class LambdaGradClip(_GradClipScheduler):
         self.scheduler_function = scheduler_function
         self.base_max_grad_norm = optimizer.max_grad_norm
         super().__init__(optimizer, last_epoch=last_epoch)
+
+    def state_dict(self) -> Dict:
+        """Returns the state of the scheduler as a :class:`dict`.
+
+        The scheduling function is saved only if it is a callable object, not if it is
+        a function or a lambda (they cannot be pickled); it is then kept as given to the
+        constructor, as in :class:`torch.optim.lr_scheduler.LambdaLR`.
+        """
+        return {
+            key: value
+            for key, value in super().state_dict().items()
+            if not (key == "scheduler_function" and isinstance(value, types.FunctionType))
+        }
 
     def get_max_grad_norm(self):
         return self.base_max_grad_norm * self.scheduler_function(self.last_epoch)
